@@ -82,4 +82,10 @@ cfg_opt_t *cfg_getnopt(cfg_t *cfg, unsigned int index)
 __CPROVER_requires(cfg == NULL || (__CPROVER_is_fresh(cfg, sizeof(*cfg)) && (cfg->opts == NULL || CFGV_OPTARRAY(cfg->opts))))
 __CPROVER_assigns()
 __CPROVER_ensures(__CPROVER_return_value == ((cfg && cfg->opts && index < (unsigned int)cfgv_term_k) ? &cfg->opts[index] : NULL));
+/* contract::cfg_num - checked against contract::cfg_numopts (the call is REPLACED by the callee's contract: its precondition
+ * is asserted at the call site, its postcondition assumed; the callee's body is not looked at) */
+unsigned int cfg_num(cfg_t *cfg)
+__CPROVER_requires(cfg == NULL || (__CPROVER_is_fresh(cfg, sizeof(*cfg)) && (cfg->opts == NULL || CFGV_OPTARRAY(cfg->opts))))
+__CPROVER_assigns()
+__CPROVER_ensures(__CPROVER_return_value == ((cfg && cfg->opts) ? (unsigned int)cfgv_term_k : 0u));
 #endif
